@@ -47,7 +47,17 @@ type WireOp struct {
 type WireCase struct {
 	Tree  *tr.Node `json:"tree"`
 	Conns int      `json:"conns"`
-	Ops   []WireOp `json:"ops"`
+	// CloneRT: the proxy's RoundTripper (SetRoundTripper) forwards a copy of
+	// the request, as instrumenting transports do; the response it returns
+	// then points at the copy.
+	CloneRT bool     `json:"clone_rt,omitempty"`
+	Ops     []WireOp `json:"ops"`
+}
+
+type cloningRT struct{ next http.RoundTripper }
+
+func (c cloningRT) RoundTrip(req *http.Request) (*http.Response, error) {
+	return c.next.RoundTrip(req.Clone(req.Context()))
 }
 
 type wireEnv struct {
@@ -130,6 +140,9 @@ func newWireEnv(c WireCase) (*wireEnv, kit.Verdict) {
 	p := martian.NewProxy()
 	p.SetTimeout(60 * time.Second)
 	p.SetDial(dialer.Dial)
+	if c.CloneRT {
+		p.SetRoundTripper(cloningRT{&http.Transport{Dial: dialer.Dial, DisableCompression: true}})
+	}
 	// what cmd/proxy builds: API traffic is recognised by its host and routed
 	// through the forwarder, ahead of the user's modifiers
 	apif := martianurl.NewFilter(&url.URL{Host: "martian.proxy"})
@@ -395,7 +408,7 @@ var propWire = &kit.Prop[WireCase]{
 	ID: "C13", Name: "e2e", Journal: true,
 	Rule: "a real martian.Proxy whose request modifier is a fifo group [url filter host martian.proxy -> api.Forwarder, martianhttp.Modifier holding a generated verifier tree] in front of a scripted origin and a local API server (configure / verify / reset handlers); 1..2 keep-alive client connections; the configuration, every verification query and every reset travel THROUGH the proxy to http://martian.proxy/... on those same connections, interleaved with <= 16|30 ordinary exchanges; each query's answer and a final direct query are compared as multisets with the model; non-trivial = an ordinary exchange with an unmet expectation follows an API request on its own connection",
 	Gen: func(t *rapid.T) WireCase {
-		c := WireCase{Tree: genTree(t), Conns: 1 + uni(t, "conns", 2)}
+		c := WireCase{Tree: genTree(t), Conns: 1 + uni(t, "conns", 2), CloneRT: rapid.Bool().Draw(t, "clonert")}
 		n := 3 + uni(t, "nops", kit.N(14, 28))
 		for i := 0; i < n; i++ {
 			op := WireOp{Conn: uni(t, "conn", c.Conns)}
@@ -405,6 +418,9 @@ var propWire = &kit.Prop[WireCase]{
 				op.K, op.Req, op.Res = "X", &rq, &rs
 				delete(rs.Header, "Set-Cookie") // keep the scripted origin trivial: cookie attributes add nothing here
 				rq.CL, rs.CL = 0, 0             // bodiless messages on the wire
+				if uni(t, "portedhost", 5) == 0 {
+					rq.Host = pick(t, "phost", tr.PortedHosts)
+				}
 			case k < 9:
 				op.K = "V"
 			default:
@@ -428,6 +444,12 @@ var propWire = &kit.Prop[WireCase]{
 		if c.Conns > 1 {
 			cl = append(cl, "two-connections")
 		}
+		if c.CloneRT {
+			cl = append(cl, "cloning-roundtripper")
+			if len(tr.Verifiers(c.Tree, tr.Response)) > 0 {
+				cl = append(cl, "cloning-roundtripper-with-response-verifier")
+			}
+		}
 		for _, op := range c.Ops {
 			if op.K == "Z" {
 				cl = appendOnce(cl, "reset-through-proxy")
@@ -435,7 +457,7 @@ var propWire = &kit.Prop[WireCase]{
 		}
 		return cl
 	},
-	Gates: map[string]float64{"unmet-after-api-request-on-connection": 0.5},
+	Gates: map[string]float64{"unmet-after-api-request-on-connection": 0.5, "cloning-roundtripper-with-response-verifier": 0.15},
 }
 
 // e2eDoneMarker: see TestEndToEnd.
